@@ -741,5 +741,219 @@ theorem put_core (st : StrictTotal gt) (d : Db K V) (inv : NodeInv gt d.nodes) (
           List.length_set]
       rw [e]; exact this
 
+theorem findPi_found {k : K} {recs : List (K × V)} {idx : Nat} (h : findPi gt k recs = (true, idx)) :
+    ∃ x, recs[idx]? = some x := by
+  simp only [findPi] at h
+  split at h
+  · rename_i a av tl e
+    have := (getElem?_of_drop e).1
+    simp only [Prod.mk.injEq] at h
+    rw [← h.2]; exact ⟨_, this⟩
+  · simp at h
+
+/-- with `IWKV_NO_OVERWRITE` a present key is reported and nothing changes -/
+theorem put_noOverwrite_present (d : Db K V) (k : K) (v : V) (lvl : Nat) {ov : V} (h : get gt d k = some ov) :
+    put gt d k v true lvl = (d, .exists_, some ov) := by
+  simp only [get] at h
+  simp only [put]
+  split at h
+  · cases h
+  · rename_i hr
+    simp only [hr, if_false]
+    split at h
+    · cases h
+    · rename_i lower hl
+      cases hp : findPi gt k lower.recs with
+      | mk found idx =>
+        rw [hp] at h
+        cases found with
+        | false => simp at h
+        | true => simp only [if_true] at h ⊢; rw [h]
+
+/-- … and an absent key is stored as by a plain put -/
+theorem put_noOverwrite_absent (d : Db K V) (k : K) (v : V) (lvl : Nat) (h : get gt d k = none) :
+    put gt d k v true lvl = put gt d k v false lvl := by
+  simp only [get] at h
+  simp only [put]
+  split at h
+  · rename_i hr; simp only [hr, if_true]
+  · rename_i hr
+    simp only [hr, if_false]
+    split at h
+    · rfl
+    · rename_i lower hl
+      cases hp : findPi gt k lower.recs with
+      | mk found idx =>
+        rw [hp] at h
+        cases found with
+        | false => simp
+        | true =>
+          obtain ⟨x, hx⟩ := findPi_found hp
+          simp [hx] at h
+
+/-- removing the record at slot `idx` of node `li` is `specDel` of its key -/
+theorem delAt_core (st : StrictTotal gt) (d : Db K V) (inv : NodeInv gt d.nodes) {li idx : Nat}
+    {pre post : List (Node K V)} {lower : Node K V} {t u : List (K × V)} {k : K} {av : V}
+    (e : d.nodes = pre ++ lower :: post) (hl : pre.length = li)
+    (e2 : lower.recs = t ++ (k, av) :: u) (hi : t.length = idx) :
+    flatten (delAt d li idx).nodes = specDel gt (flatten d.nodes) k ∧ NodesOk (delAt d li idx).nodes := by
+  obtain ⟨nodes, curs⟩ := d
+  simp only at inv e ⊢
+  subst e
+  have hok := inv.1
+  rw [nodesOk_append, nodesOk_cons] at hok
+  have hf : flatten (pre ++ lower :: post) = (flatten pre ++ t) ++ (k, av) :: (u ++ flatten post) := by
+    rw [flatten_append, flatten_cons, e2]; simp only [List.append_assoc, List.cons_append]
+  have hd := inv.2
+  rw [hf] at hd
+  rw [hf, specDel_present st av _ (desc_mid hd).1]
+  simp only [delAt, getElem?_mid hl, take_mid hl, drop_mid hl]
+  split
+  · rename_i h1
+    rw [e2] at h1
+    simp only [List.length_append, List.length_cons] at h1
+    have ht : t = [] := List.eq_nil_of_length_eq_zero (by omega)
+    have hu : u = [] := List.eq_nil_of_length_eq_zero (by omega)
+    subst ht hu
+    simp only [mapCurs_nodes, flatten_append, List.append_nil, List.nil_append, true_and]
+    rw [nodesOk_append]; exact ⟨hok.1, hok.2.2⟩
+  · rename_i h1
+    have he : lower.recs.eraseIdx idx = t ++ u := by
+      rw [List.eraseIdx_eq_take_drop_succ, e2, take_mid hi, drop_mid hi]
+    simp only [mapCurs_nodes, flatten_append, flatten_cons, he, List.append_assoc, true_and]
+    rw [nodesOk_append, nodesOk_cons]
+    have hlen := hok.2.1.2
+    rw [e2] at h1 hlen
+    simp only [List.length_append, List.length_cons] at h1 hlen
+    refine ⟨hok.1, ⟨?_, ?_⟩, hok.2.2⟩
+    · intro h0
+      have := congrArg List.length h0
+      simp only [List.length_append, List.length_nil] at this
+      omega
+    · simp only [List.length_append]; omega
+
+theorem del_core (st : StrictTotal gt) (d : Db K V) (inv : NodeInv gt d.nodes) (k : K) :
+    flatten (del gt d k).1.nodes = specDel gt (flatten d.nodes) k ∧ NodesOk (del gt d k).1.nodes ∧
+    (del gt d k).2 = (specGet gt (flatten d.nodes) k).isSome := by
+  cases hr : routeIdx gt k d.nodes with
+  | zero =>
+    have hlt := routeIdx_zero st inv hr
+    have e1 := specGet_absent st (l1 := []) allGt_nil hlt
+    have e2 := specDel_absent st (l1 := []) allGt_nil hlt
+    rw [List.nil_append] at e1 e2
+    rw [e1, e2]
+    have : del gt d k = (d, false) := by simp only [del, hr, if_true]
+    rw [this]
+    exact ⟨rfl, inv.1, rfl⟩
+  | succ r =>
+    obtain ⟨pre, lower, post, e, hl, hg, hc⟩ := lower_split st inv hr
+    have hn : d.nodes[r]? = some lower := by rw [e]; exact getElem?_mid hl
+    have hf := flatten_split pre post lower (findPos gt k lower.recs)
+    rw [← e] at hf
+    rcases hc with ⟨h2, hp, _⟩ | ⟨av, rest, h2, h3, hp⟩
+    · have : del gt d k = (d, false) := by
+        simp only [del, hr, Nat.add_one_ne_zero, if_false, Nat.add_sub_cancel, hn, hp, Bool.not_false, if_true]
+      rw [this, hf, specGet_absent st hg h2, specDel_absent st hg h2, ← hf]
+      exact ⟨rfl, inv.1, rfl⟩
+    · have : del gt d k = (delAt d r (findPos gt k lower.recs), true) := by
+        simp only [del, hr, Nat.add_one_ne_zero, if_false, Nat.add_sub_cancel, hn, hp, Bool.not_true,
+          Bool.false_eq_true]
+      rw [this]
+      have e2 : lower.recs = lower.recs.take (findPos gt k lower.recs) ++ (k, av) :: rest := by
+        rw [← h2, List.take_append_drop]
+      have hi : (lower.recs.take (findPos gt k lower.recs)).length = findPos gt k lower.recs := by
+        have := congrArg List.length h2
+        simp only [List.length_drop, List.length_cons] at this
+        rw [List.length_take]; omega
+      have := delAt_core st d inv e hl e2 hi
+      refine ⟨this.1, this.2, ?_⟩
+      rw [hf, h2, List.cons_append, specGet_present st av _ hg]
+      rfl
+
+/-! ### operation histories -/
+
+/-- one call of the record API (the level is the one the skip-list generator draws for this call) -/
+inductive Op (K V : Type) where
+  | put (k : K) (v : V) (lvl : Nat)
+  | putNoOverwrite (k : K) (v : V) (lvl : Nat)
+  | del (k : K)
+  | get (k : K)
+
+/-- what a call reports -/
+inductive Out (V : Type) where
+  | put (o : PutOut) (old : Option V)
+  | del (found : Bool)
+  | get (v : Option V)
+
+def stepNode (gt : K → K → Bool) (d : Db K V) : Op K V → Db K V × Out V
+  | .put k v lvl => ((put gt d k v false lvl).1, .put (put gt d k v false lvl).2.1 (put gt d k v false lvl).2.2)
+  | .putNoOverwrite k v lvl => ((put gt d k v true lvl).1, .put (put gt d k v true lvl).2.1 (put gt d k v true lvl).2.2)
+  | .del k => ((del gt d k).1, .del (del gt d k).2)
+  | .get k => (d, .get (get gt d k))
+
+def stepSpec (gt : K → K → Bool) (m : List (K × V)) : Op K V → List (K × V) × Out V
+  | .put k v _ => (specPut gt m k v, .put .ok (specGet gt m k))
+  | .putNoOverwrite k v _ =>
+    match specGet gt m k with
+    | some ov => (m, .put .exists_ (some ov))
+    | none => (specPut gt m k v, .put .ok none)
+  | .del k => (specDel gt m k, .del (specGet gt m k).isSome)
+  | .get k => (m, .get (specGet gt m k))
+
+/-- run a history on the node model; returns the final state and every result -/
+def runNode (gt : K → K → Bool) : Db K V → List (Op K V) → Db K V × List (Out V)
+  | d, [] => (d, [])
+  | d, op :: ops => ((runNode gt (stepNode gt d op).1 ops).1, (stepNode gt d op).2 :: (runNode gt (stepNode gt d op).1 ops).2)
+
+/-- run a history on the ordered-map spec -/
+def runSpec (gt : K → K → Bool) : List (K × V) → List (Op K V) → List (K × V) × List (Out V)
+  | m, [] => (m, [])
+  | m, op :: ops => ((runSpec gt (stepSpec gt m op).1 ops).1, (stepSpec gt m op).2 :: (runSpec gt (stepSpec gt m op).1 ops).2)
+
+theorem step_refines (st : StrictTotal gt) (d : Db K V) (inv : NodeInv gt d.nodes) (op : Op K V) :
+    (stepNode gt d op).2 = (stepSpec gt (flatten d.nodes) op).2 ∧
+    flatten (stepNode gt d op).1.nodes = (stepSpec gt (flatten d.nodes) op).1 ∧
+    NodeInv gt (stepNode gt d op).1.nodes := by
+  cases op with
+  | put k v lvl =>
+    have h := put_core st d inv k v lvl _ rfl
+    simp only [stepNode, stepSpec]
+    refine ⟨by rw [h.2.2.1, h.2.2.2], h.1, h.2.1, ?_⟩
+    rw [h.1]; exact desc_specPut st inv.2 k v
+  | putNoOverwrite k v lvl =>
+    simp only [stepNode, stepSpec]
+    rw [← get_refines st d inv k]
+    cases hg : get gt d k with
+    | some ov =>
+      rw [put_noOverwrite_present d k v lvl hg]
+      exact ⟨rfl, rfl, inv⟩
+    | none =>
+      rw [put_noOverwrite_absent d k v lvl hg]
+      have h := put_core st d inv k v lvl _ rfl
+      rw [← get_refines st d inv k, hg] at h
+      refine ⟨by rw [h.2.2.1, h.2.2.2], h.1, h.2.1, ?_⟩
+      rw [h.1]; exact desc_specPut st inv.2 k v
+  | del k =>
+    have h := del_core st d inv k
+    simp only [stepNode, stepSpec]
+    refine ⟨by rw [h.2.2], h.1, h.2.1, ?_⟩
+    rw [h.1]; exact desc_specDel st inv.2 k
+  | get k =>
+    simp only [stepNode, stepSpec]
+    exact ⟨by rw [get_refines st d inv k], trivial, inv⟩
+
+theorem run_refines (st : StrictTotal gt) (ops : List (Op K V)) (d : Db K V) (inv : NodeInv gt d.nodes) :
+    (runNode gt d ops).2 = (runSpec gt (flatten d.nodes) ops).2 ∧
+    flatten (runNode gt d ops).1.nodes = (runSpec gt (flatten d.nodes) ops).1 ∧
+    NodeInv gt (runNode gt d ops).1.nodes := by
+  induction ops generalizing d with
+  | nil => exact ⟨rfl, rfl, inv⟩
+  | cons op ops ih =>
+    have hs := step_refines st d inv op
+    have := ih (stepNode gt d op).1 hs.2.2
+    simp only [runNode, runSpec]
+    rw [← hs.2.1, hs.1.symm]
+    exact ⟨by rw [this.1], this.2.1, this.2.2⟩
+
 end
 end IwModel.Kv
